@@ -13,7 +13,7 @@ binary in a private scratch directory; the observed exit status, stdout bytes,
 stderr non-emptiness and created files must be one of the terminal behaviours the
 machine has for that configuration.
 
-quick:    the seeded 1/13 lattice sample of the universe (MC_Cli_sample.cfg)
+quick:    the seeded 1/17 lattice sample of the universe (MC_Cli_sample.cfg)
 thorough: the whole universe (MC_Cli_all.cfg)
 """
 import concurrent.futures
@@ -26,7 +26,7 @@ import c12_util as cu
 from vlib import Check, run_tlc, tlc_must_pass
 
 PROP = "C12"
-RATE = 13
+RATE = 17
 
 # Every failure action of Cli.tla has its own cause text; TLC's -coverage cannot be used on this
 # model (its cost-model construction inlines the nested reference operators and exhausts the heap),
@@ -150,10 +150,8 @@ def run(tier, seed):
     by_why, by_mode, by_fault, by_prog, by_ext = {}, {}, {}, {}, {}
     open_cfgs = 0
     open_taken = {}
-    flip = os.environ.get("C12_FLIP")
+    disagreements = {}
     for (i, k, cfg, allowed, run_), obs in zip(jobs, observations):
-        if flip and i == int(flip):
-            allowed = [dict(a, exit=(1 if a["exit"] == 0 else 0)) for a in allowed]
         usage = any(a["exit"] == 2 for a in allowed)
         chk.count(key=k, nontrivial=not usage)
         for name, table in (("mode", by_mode), ("fault", by_fault), ("prog", by_prog), ("ext", by_ext)):
@@ -180,6 +178,8 @@ def run(tier, seed):
                "ntn": str(cfg["ntn"]).lower(), "out": str(cfg["out"]).lower(),
                "want_exit": str(exp["exit"]), "got_exit": str(obs["rc"]), "why": exp["why"] or "success"}
         payload = {"cfg": cfg, "allowed": allowed, "run": run_}
+        dk = f"{cls} fault={cfg['fault']} ntn={sig['ntn']} want={sig['want_exit']} got={sig['got_exit']}"
+        disagreements[dk] = disagreements.get(dk, 0) + 1
         chk.disagree(sig, f"`{describe(run_)}`: {what}"
                           + (f" [stderr: {obs['stderr'][:160].decode('utf-8', 'replace')!r}]" if obs["stderr"] else ""),
                      payload)
@@ -189,6 +189,7 @@ def run(tier, seed):
     chk.extra["terminal_behaviours"] = sum(len(g[1]) for g in groups.values())
     chk.extra["open_configurations"] = open_cfgs
     chk.extra["open_alternative_taken"] = open_taken
+    chk.extra["disagreement_classes"] = disagreements
     chk.extra["matched_by_exit"] = by_exit
     chk.extra["matched_by_cause"] = by_why
     chk.extra["by_mode"] = by_mode
